@@ -104,7 +104,7 @@ var sysNr = map[string]int{
 	"rt_sigaction": 13, "rt_sigprocmask": 14, "access": 21, "sched_yield": 24, "dup": 32, "dup2": 33, "pause": 34, "nanosleep": 35, "getpid": 39,
 	"clone": 56, "fork": 57, "vfork": 58, "execve": 59, "exit": 60, "wait4": 61, "kill": 62, "uname": 63, "fcntl": 72, "truncate": 76, "getcwd": 79, "chdir": 80,
 	"fchdir": 81, "rename": 82, "mkdir": 83, "rmdir": 84, "creat": 85, "link": 86, "unlink": 87, "symlink": 88, "readlink": 89, "chmod": 90,
-	"getuid": 102, "getgid": 104, "setpgid": 109, "getppid": 110, "setsid": 112, "getgroups": 115, "getresuid": 118, "getresgid": 120, "getpgid": 121, "getsid": 124, "capget": 125,
+	"getuid": 102, "getgid": 104, "setpgid": 109, "getppid": 110, "setsid": 112, "getgroups": 115, "getresuid": 118, "getresgid": 120, "getpgid": 121, "getsid": 124, "getpgrp": 111, "capget": 125,
 	"getpriority": 140, "prctl": 157, "gettid": 186, "tkill": 200, "getdents64": 217, "clock_gettime": 228, "exit_group": 231, "tgkill": 234,
 	"openat": 257, "mkdirat": 258, "mknodat": 259, "newfstatat": 262, "unlinkat": 263, "renameat": 264, "linkat": 265, "symlinkat": 266, "readlinkat": 267,
 	"fchmodat": 268, "faccessat": 269, "dup3": 292, "prlimit64": 302, "renameat2": 316, "memfd_create": 319, "execveat": 322, "statx": 332, "openat2": 437, "faccessat2": 439, "fchmodat2": 452,
